@@ -161,7 +161,7 @@ def _steps(ctx: Ctx, fn) -> List[str]:
     return out
 
 
-def rule_steps(ctx: Ctx):
+def rule_steps(ctx: Ctx, rule: str = "C17.steps"):
     rep = ctx.rep
     init = ctx.fn("StateMachine.__init__")
     ss = ctx.fn("StateMachine.__setstate__")
@@ -169,12 +169,12 @@ def rule_steps(ctx: Ctx):
     b = _steps(ctx, ss)
     core_a = [x for x in a if x in ("register", "engine", "start")]
     core_b = [x for x in b if x in ("register", "engine", "start")]
-    rep.check(core_a == ["register", "engine", "start"], "C17.steps", init.loc(), "constructor: register callbacks, choose engine, start", init.key, f"steps: {a}")
-    rep.check(core_b == core_a, "C17.steps", ss.loc(), "restore performs the constructor's steps in the constructor's order (incl. start(): a clone of a "
+    rep.check(core_a == ["register", "engine", "start"], rule, init.loc(), "constructor: register callbacks, choose engine, start", init.key, f"steps: {a}")
+    rep.check(core_b == core_a, rule, ss.loc(), "restore performs the constructor's steps in the constructor's order (incl. start(): a clone of a "
               "not-yet-activated machine still gets its initial activation)", ss.key, f"restore steps: {b} vs constructor steps: {a}")
     if "listeners" in b and "engine" in b:
-        rep.check(b.index("listeners") < b.index("engine"), "C17.steps", ss.loc(), "listeners are attached before the engine is chosen", ss.key, f"restore steps: {b}")
-    c12.rule_engine(ctx, rule="C17.steps", only={"__setstate__"})
+        rep.check(b.index("listeners") < b.index("engine"), rule, ss.loc(), "listeners are attached before the engine is chosen", ss.key, f"restore steps: {b}")
+    c12.rule_engine(ctx, rule=rule, only={"__setstate__"})
     # validation must see every provider: constructor passes the listeners to _register_callbacks
     reg_arg = None
     for p in ctx.paths(ss, inline=None, exc_edges="none"):
@@ -184,7 +184,7 @@ def rule_steps(ctx: Ctx):
         break
     late = "listeners" in b and "register" in b and b.index("register") < b.index("listeners")
     if late:
-        rep.check(reg_arg not in ("[]", "()", None), "C17.steps", ss.loc(),
+        rep.check(reg_arg not in ("[]", "()", None), rule, ss.loc(),
                   "callbacks are validated on restore only once every provider (incl. the saved listeners) is attached", ss.key,
                   f"self._register_callbacks({reg_arg}) validates before add_listener re-attaches the listeners")
 
@@ -277,6 +277,59 @@ def rule_attach(ctx: Ctx):
                       norm_stmt(e.node))
 
 
+def rule_first_attachment(ctx: Ctx):
+    """C17.attach: the recorded pass of a listener is the pass of its FIRST attachment.  Attaching a listener again is a
+    no-op on the live machine (its callbacks are de-duplicated by key), so the record must not move either - otherwise the
+    clone replays it in a later pass and runs equal-priority callbacks in another order."""
+    rep = ctx.rep
+    al = ctx.fn("StateMachine.add_listener")
+    n = 0
+    for p in ctx.paths(al, inline=None, exc_edges="none", unroll=1):
+        evs = p.events
+        for e in p.calls():
+            f = e.term.func
+            if isinstance(f, ast.Attribute) and xshow(f.value, evs) == "self._listeners" and f.attr in ("update", "__setitem__"):
+                n += 1
+                rep.violation("C17.attach", e.loc(), "add_listener overwrites the recorded attachment pass of a listener that is already attached "
+                              "(the clone then replays it in a later pass than the original attached it in)", al.key, norm_stmt(e.node))
+            elif isinstance(f, ast.Attribute) and xshow(f.value, evs) == "self._listeners" and f.attr == "setdefault":
+                n += 1
+                rep.ok("C17.attach", e.loc(), "add_listener records a pass only for listeners not yet recorded (setdefault)")
+        for e in p.of("store"):
+            if e.x.get("subscript") and xshow(e.term.value, evs) == "self._listeners":
+                n += 1
+                key = xshow(e.term.slice, evs)
+                guarded = any(b.kind == "branch" and b.idx < e.idx and isinstance(b.term, ast.Compare) and isinstance(b.term.ops[0], (ast.In, ast.NotIn))
+                              and xshow(b.term.left, evs) == key and xshow(b.term.comparators[0], evs) == "self._listeners"
+                              and (b.x["taken"] is isinstance(b.term.ops[0], ast.NotIn)) for b in evs)
+                rep.check(guarded, "C17.attach", e.loc(), "add_listener records a pass only for listeners not yet recorded", al.key, norm_stmt(e.node))
+    rep.floor("C17.attach", "writes of the listener record in add_listener", n, 1)
+
+
+def rule_no_snapshot(ctx: Ctx):
+    """C17.carry: an engine keeps no copy of a machine option.  The original's engine is built in the constructor, the
+    clone's in __setstate__: a value copied from the machine at engine construction is taken at two different times, so
+    changing the option between them makes original and clone disagree.  Options are read through `self.sm` when needed."""
+    rep, k = ctx.rep, ctx.k
+    n = 0
+    for cls_ in [k.base] + list(k.engines):
+        init = cls_.method("__init__")
+        if init is None:
+            continue
+        smp = init.params[1] if len(init.params) > 1 else "sm"
+        for p in ctx.paths(init, inline=None, exc_edges="none"):
+            for e in p.of("store"):
+                if show(e.term.value) != "self":
+                    continue
+                n += 1
+                v = expand(e.x["value"], p.events)
+                snap = [a for a in ast.walk(v) if isinstance(a, ast.Attribute) and isinstance(a.value, ast.Name) and a.value.id == smp]
+                rep.check(not snap, "C17.carry", e.loc(), f"{cls_.name}: no machine attribute is copied into the engine at construction", init.key,
+                          norm_stmt(e.node), copied=[show(a) for a in snap])
+            break
+    rep.floor("C17.carry", "attributes set by engine constructors", n, 4)
+
+
 def rule_restart_guard(ctx: Ctx):
     """C17.steps: `start()` on the restored machine must leave a stored state alone whatever its value (None-test)."""
     from . import c11
@@ -284,4 +337,4 @@ def rule_restart_guard(ctx: Ctx):
     c11.rule_guard(ctx, rule="C17.steps")
 
 
-RULES = [rule_carry, rule_excluded, rule_steps, rule_attach, rule_restart_guard]
+RULES = [rule_carry, rule_excluded, rule_steps, rule_attach, rule_first_attachment, rule_no_snapshot, rule_restart_guard]
